@@ -100,7 +100,11 @@ def gen_random(rng):
         if r < 0.18:
             if state[p] == "free":
                 z = rng.random() < 0.2
-                hist.append(("spawn", p, z))
+                if rng.random() < 0.25:
+                    # names the kernel prints verbatim inside the parentheses of /proc/PID/stat: blanks, parentheses
+                    hist.append(("spawn", p, z, None, rng.choice(ODD_NAMES)))
+                else:
+                    hist.append(("spawn", p, z))
                 state[p] = "zombie" if z else "live"
         elif r < 0.28:
             if state[p] == "live":
@@ -296,6 +300,22 @@ def run_history(hist, acc, with_pid0=False, caller_pid=None):
     if caller_pid is not None:
         case["caller_pid"] = caller_pid
     acc.case(case, nontrivial, viols, sample=dict(case, records=[H.summarize(r) for r in w.records][:30]))
+
+
+ODD_NAMES = ["Web Content", "tmux: server", "a b c", "x) S 1 (y", "(sd-pam)", " lead", "trail "]
+
+
+def odd_name_histories():
+    """PID re-use between processes whose names contain blanks / parentheses (old and new owner named alike or not)."""
+    out = []
+    for a in ODD_NAMES[:5]:
+        for b in (a, ODD_NAMES[(ODD_NAMES.index(a) + 1) % 5], None):
+            for z in (False, True):
+                for tail in (("sig", 0, "kill", None), ("sig", 0, "send_signal", 10), ("set", 0, "nice", 5), ("set", 0, "affinity", [1])):
+                    out.append([("spawn", 7, False, None, a), ("new", 7), ("vanish", 7), ("spawn", 7, z, None, b), tail, ("isrun", 0)])
+                out.append([("spawn", 7, False, None, a), ("iter", "keep"), ("exit", 7), ("reap", 7), ("spawn", 7, z, None, b),
+                            ("sig", 0, "terminate", None), ("set", 0, "rlimit", [7, [5, 9]])])
+    return out
 
 
 def pid0_histories():
@@ -611,6 +631,9 @@ def run_shard(shard):
             run_history(h, acc, with_pid0=True)
         for h in signo_histories():
             run_history(h, acc)
+        for h in odd_name_histories():
+            run_history(h, acc)
+            acc.count("histories_with_odd_process_names")
         acc.count("exhaustive_signal_numbers", len(SIGNOS))
         for opname in ("kill", "terminate", "suspend", "send_signal", "nice", "ionice", "affinity", "rlimit"):
             run_blocked_call(dict(op=opname), acc)
